@@ -367,6 +367,8 @@ func (e *Explorer) run(prefix []int, logObs bool) (res execResult) {
 		}
 	}()
 	setMapCtx(c)
+	progressStart(prefix)
+	defer progressEnd()
 	e.Body(c)
 	setMapCtx(nil)
 	return execResult{trace: c.trace, viol: c.viol, obs: c.obs.String()}
@@ -521,6 +523,7 @@ func (e *Explorer) Explore() {
 				v.Choices = choicesOf(res.trace)
 				v.Labels = labelsOf(res.trace)
 				st.Violations = append(st.Violations, v)
+				journalViolation(v)
 			}
 		}
 		if !res.skipped && len(e.firstRuns) < e.Repass {
